@@ -19,6 +19,8 @@ PROFILE = {
     "p_retryable": 0.8,
     "max_dur": 16,
     "max_delay_ticks": 32,
+    "attempt_timeout": 0.1,
+    "multi_call": (1, 2),
 }
 NORETRY = ["Policy.noretry.execute", "AsyncPolicy.noretry.execute"]
 
